@@ -3,11 +3,17 @@ package main
 // Property registrations: which harnesses (obligations) decide which property, with bounds per tier.
 
 import (
+	"fmt"
+
 	"golang.org/x/tools/go/ssa"
 )
 
 func hj(id, entry, desc string) *Job {
 	return &Job{ID: id, Pkg: "internal/transfer", Entry: entry, Desc: desc}
+}
+
+func hjp(pkg, id, entry, desc string) *Job {
+	return &Job{ID: id, Pkg: pkg, Entry: entry, Desc: desc}
 }
 
 func init() {
@@ -34,6 +40,75 @@ func init() {
 				b.MaxSymAlloc = 16
 			}
 			return []*Job{a, b}
+		},
+	})
+
+	register(&PropCheck{
+		ID:      "C12",
+		PkgDirs: []string{"internal/app"},
+		Level:   "model_checking",
+		Explanation: "Bounded model checking of the snapshot sender's admission state machine: the repository's own handlePeerJoined, handleManifestAccept, maybeStartTransfers, handlePeerLeft, runTransfer, cleanup, enqueueLocked and collectQueuedUpdatesLocked are executed from go/ssa for every history of join/accept/leave/transfer-end(ok|error)/idle-tick events over 2 (quick) or 3 receivers, for max-receivers 1 and 2. `go s.runTransfer` is a pending task run at its end event; the transfer result is a solver variable, the event choice a forked decision. After every event ghost state asserts: slots and running transfers <= max-receivers, queue duplicate-free and exactly the QUEUED receivers in arrival order, slot <=> TRANSFERRING <=> a running task, no free slot with a waiting receiver, a receiver that left neither queued nor holding a slot.",
+		Rule:        "states = paths (event histories), transitions = SSA instructions executed; assertion sites: vAssert lines of vC12.check",
+		Assumptions: []string{"conn == nil: messages to peers are not sent (as in the repository's own newTestSender)", "a cancelled transfer (receiver left) is not counted as running but its completion is still an event", "map iteration order = insertion order"},
+		Bounds: func(tier string) string {
+			if tier == "thorough" {
+				return "3 receivers, 6 events (H_C12_three) and 8 events (H_C12_deep), max-receivers in {1,2}"
+			}
+			return "2 receivers, 5 events, max-receivers in {1,2}"
+		},
+		Jobs: func(tier string, prog *ssa.Program) []*Job {
+			js := []*Job{hjp("internal/app", "C12.two", "H_C12_two", "2 receivers, 5 events")}
+			if tier == "thorough" {
+				js = append(js, hjp("internal/app", "C12.three", "H_C12_three", "3 receivers, 6 events"))
+			}
+			for _, j := range js {
+				j.Workers = 16
+				j.MaxPaths = 20000000
+				j.FixedClock = false
+			}
+			return js
+		},
+	})
+
+	register(&PropCheck{
+		ID:      "C14",
+		PkgDirs: []string{"internal/session", "cmd/thruserv"},
+		Level:   "other",
+		Explanation: "session.Store (Create/GetByJoinCode/Delete/Count) is executed symbolically for every history of 4 (quick) / 6 (thorough) operations over up to 3 sessions with crypto/rand as symbolic bytes and time.Now as a symbolic non-decreasing clock: live join codes pairwise distinct, lookup succeeds exactly from creation until deletion or expiry, never afterwards, ttl 0 never expires. connLimiter and tokenBucket (cmd/thruserv) are checked by one-step induction from an arbitrary state satisfying the representation invariant (0 <= inUse <= limit, 0 <= tokens <= burst) with float64 as SMT floating point.",
+		Rule:        "assertion sites: vAssert lines of H_C14_*",
+		Assumptions: []string{"fresh 128-bit session ids do not collide (generateSessionID stubbed to distinct ids)", "Duration.Seconds over-approximated: any finite seconds >= 0 for a non-negative duration, 0 for 0", "the check-then-act sequences of the HTTP/WebSocket handlers under concurrent arrivals are outside (closures over net/http)", "connLimiter counter far below 2^63"},
+		Bounds: func(tier string) string { return "store histories of 4 (quick) / 6 (thorough) operations, <= 3 sessions; limiter steps from arbitrary valid states" },
+		Jobs: func(tier string, prog *ssa.Program) []*Job {
+			st := hjp("internal/session", "C14.store", "H_C14_store", "store histories")
+			if tier == "thorough" {
+				st = hjp("internal/session", "C14.store", "H_C14_store_deep", "store histories (6 operations)")
+			}
+			idn := 0
+			st.Stubs = map[string]interceptFn{repoModule + "/internal/session.generateSessionID": func(it *Interp, fn *ssa.Function, a []Value) Value {
+				it.names["sessid"]++
+				_ = idn
+				return it.constString(fmt.Sprintf("id%030d", it.names["sessid"]))
+			}}
+			// generateJoinCode: 8 arbitrary bytes (its alphabet mapping is irrelevant to the store's bookkeeping and
+			// turns every code comparison into 8 nested 32-way ite chains)
+			st.Stubs[repoModule+"/internal/session.generateJoinCode"] = func(it *Interp, fn *ssa.Function, a []Value) Value {
+				b := make([]*Term, 8)
+				it.names["joincode"]++
+				for i := range b {
+					b[i] = it.ctx.Var(fmt.Sprintf("code%d[%d]", it.names["joincode"], i), SBV(8))
+				}
+				return &StrV{b}
+			}
+			st.Unwind = 4
+			st.UnwindIsBound = true
+			st.Workers = 12
+			cl := hjp("cmd/thruserv", "C14.connlimiter", "H_C14_connlimiter", "connLimiter one-step induction")
+			tb := hjp("cmd/thruserv", "C14.bucket", "H_C14_bucket", "tokenBucket one-step induction (floating point)")
+			tb.OneShot = true
+			tb.TimeoutMs = 120000
+			bb := hjp("cmd/thruserv", "C14.bucket-burst", "H_C14_bucket_burst", "burst admissions with a fixed clock")
+			bb.FixedClock = true
+			return []*Job{st, cl, tb, bb}
 		},
 	})
 
